@@ -10,7 +10,9 @@ Space (every member is visited, nothing sampled): a history is
   * commit times: increasing with the history by default; in the groups marked so also every order of the commit
     times relative to the history (ancestors later than descendants, all equal) and time scales of minutes, 2, 5,
     7 and 29 days between commits - always inside the 30-day window;
-  * branch-name families with every separator the numeric-aware order handles (. - _ /).
+  * branch-name families with every separator the numeric-aware order handles (. - _ /) and names that are a
+    prefix of another name;
+  * search texts with regular-expression metacharacters (selection is plain substring containment).
 The real ``ReposCollection.make_report`` runs on a deterministic duck-typed repository
 (models/ghist_model.py); ``RGraph.branches[*].rbuilds[*]`` and the printed report are compared with a
 reachability reference written from the property statement.
@@ -50,7 +52,9 @@ REQUIRED_FEATURES = ["printed-report-parsed", "commit-times-spread-over-days",
                      "higher-branch-head-newer-than-lower-report-builds:>=29d",
                      "days-older-higher-branch-owes-not-merged",
                      "name-separator-underscore", "name-separator-dash", "name-separator-dot", "name-separator-slash",
-                     "order-differs-from-concatenated-digits",
+                     "order-differs-from-concatenated-digits", "name-is-prefix-of-another-with-numeric-continuation",
+                     "search-text-with-regex-metacharacters", "message-matches-as-regex-only",
+                     "message-matches-as-substring-only",
                      "commit-times-against-history", "commit-times-equal",
                      "ancestor-of-inside-head-committed-later", "merge", "several-roots", "heads-coincide", "head-inside-other-branch",
                      "head-inside-other-branch+matching-reachable", "not-merged-expected", "tagged-head",
@@ -68,6 +72,10 @@ N_DOT = ("release/1.9", "release/1.10")
 N_DASH = ("release/2-9", "release/2-10")
 N_SLASH = ("release/3/9", "release/3/10")
 N_MIX = ("release/9_10", "release/10.1", "release/10-2", "master")
+# one name's item list is a strict prefix of the other's, which continues with a number: the shorter sorts first
+N_PFX1 = ("release/10", "release/10.1")
+N_PFX2 = ("release/2", "release/2.0.1")
+TEXTS = tuple(gm.TEXT_FLAVOURS)
 DAY = 86400
 
 # group = (n, branch names, number of shards, (max matching, max tagged) or None, printed-report mode, commit times)
@@ -88,7 +96,10 @@ _GROUPS = {
               (2, N_DOT, 1, None, "all", "inc"), (3, N_DOT, 1, None, "all", "inc"),
               (2, N_DASH, 1, None, "all", "inc"), (3, N_DASH, 1, None, "all", "inc"),
               (2, N_SLASH, 1, None, "all", "inc"), (3, N_SLASH, 1, None, "all", "inc"),
-              (2, N_MIX, 1, None, "all", "inc")],
+              (2, N_MIX, 1, None, "all", "inc"),
+              (2, N_PFX1, 1, None, "all", "inc"), (3, N_PFX1, 1, None, "all", "inc"),
+              (2, N_PFX2, 1, None, "all", "inc"), (3, N_PFX2, 1, None, "all", "inc")]
+             + [(n, B2, 1, None, "all", "inc", t) for t in TEXTS for n in (2, 3)],
     "thorough": [(1, B2, 1, None, "all", "all"), (2, B2, 1, None, "all", "all"), (1, B4, 1, None, "all", "all"),
                  (2, B4, 1, None, "all", "all"), (3, B1, 1, None, "all", "all"), (3, B2, 4, None, "all", "all"),
                  (3, B3, 16, None, "all", "all"), (3, B4, 32, None, "all", "lite"),
@@ -99,7 +110,11 @@ _GROUPS = {
                  (3, N_DOT, 1, None, "all", "inc"), (4, N_DOT, 8, None, "all", "inc"),
                  (3, N_DASH, 1, None, "all", "inc"), (4, N_DASH, 8, None, "all", "inc"),
                  (3, N_SLASH, 1, None, "all", "inc"), (4, N_SLASH, 8, None, "all", "inc"),
-                 (3, N_MIX, 4, None, "all", "inc")],
+                 (3, N_MIX, 4, None, "all", "inc"),
+                 (3, N_PFX1, 1, None, "all", "inc"), (4, N_PFX1, 8, None, "all", "inc"),
+                 (3, N_PFX2, 1, None, "all", "inc"), (4, N_PFX2, 8, None, "all", "inc")]
+                + [(n, B3, 2, None, "all", "inc", t) for t in TEXTS for n in (2, 3)]
+                + [(4, B2, 8, None, "all", "inc", t) for t in TEXTS],
 }
 
 
@@ -136,15 +151,16 @@ def bounds(tier):
     return {"groups": [{"commits": n, "branches": list(names), "shards": k,
                         "matching_commits_at_most": lim[0] if lim is not None else n,
                         "tagged_commits_at_most": lim[1] if lim is not None else n,
-                        "printed_report_compared": pr, "commit_time_orders": len(_date_schemes(n, dm))}
-                       for n, names, k, lim, pr, dm in _GROUPS[tier]],
+                        "printed_report_compared": pr, "commit_time_orders": len(_date_schemes(n, dm)),
+                        "search_text": (rest[0] if rest else gm.SEARCH_TEXT)}
+                       for n, names, k, lim, pr, dm, *rest in _GROUPS[tier]],
             "parents_per_commit": "0..2, both orders", "tags": "any subset, one standard tag per commit",
             "matching": "any subset (see matching_commits_at_most)", "heads": "every tuple covering all commits"}
 
 
 def shards(tier):
     out = []
-    for gi, (n, names, k, lim, pr, _dm) in enumerate(_GROUPS[tier]):
+    for gi, (n, names, k, lim, pr, _dm, *_rest) in enumerate(_GROUPS[tier]):
         for j in range(k):
             out.append((tier, gi, j))
     return out
@@ -171,7 +187,7 @@ def check_history(case, acc, printed_mode="all"):
         fake = gm.FakeRepo(gm.c06_repo_spec(case))
         with gm.cpu_limit(5.0):
             coll = gm.ghist.ReposCollection({"comp_1": gm.ModelProjectRepo("comp_1", fake, "origin")})
-            report = coll.make_report(gm.SEARCH_TEXT)
+            report = coll.make_report(case.get("text", gm.SEARCH_TEXT))
         (_rid, rgraph), = report.data
         observed = gm.observe_rgraph(rgraph)
     except gm.Hang:
@@ -217,7 +233,8 @@ def _outcome(observed, problems):
 
 def run_shard(shard, tier, seed, acc):
     _tier, gi, j = shard
-    n, names, k, lim, printed_mode, date_mode = _GROUPS[tier][gi]
+    n, names, k, lim, printed_mode, date_mode, *rest = _GROUPS[tier][gi]
+    text = rest[0] if rest else None
     schemes = _date_schemes(n, date_mode)
     _PRINT_SEEN.clear()             # per shard, so that what is printed does not depend on worker scheduling
     dags = _dags(n)
@@ -247,6 +264,8 @@ def run_shard(shard, tier, seed, acc):
                     base_feats = None
                     for scheme in schemes:
                         case = {"parents": parents, "heads": heads, "tags": tags, "match": match}
+                        if text is not None:
+                            case["text"] = text
                         dates = None
                         if scheme is not None:
                             dates, step = scheme
@@ -258,6 +277,8 @@ def run_shard(shard, tier, seed, acc):
                             base_feats = (tuple(gm.c06_features(parents, heads, tags, match, exp)) + extra,
                                           gm.c06_nontrivial(match, exp))
                         feats, nontriv = base_feats
+                        if text is not None:
+                            feats = feats + _text_features(case)
                         if dates is not None:
                             feats = feats + _date_features(parents, dates, step, match, exp)
                         acc.case(nontrivial=nontriv, features=feats, outcome=_outcome(observed, problems))
@@ -270,6 +291,22 @@ def run_shard(shard, tier, seed, acc):
                                 if acc.extra.get("sum_hangs", 0) >= 3:      # each hang costs the whole CPU limit
                                     acc.capped = True
                                     return
+
+
+def _text_features(case):
+    import re
+    text = case["text"]
+    f = ("search-text-with-regex-metacharacters",)
+    match = set(case["match"])
+    for i in range(1, len(case["parents"]) + 1):
+        msg = gm.c06_message(i, i in match, text)
+        as_re = re.search(text, msg) is not None
+        if as_re and text not in msg:
+            f += ("message-matches-as-regex-only",)
+        if text in msg and not as_re:
+            f += ("message-matches-as-substring-only",)
+        assert (text in msg) == (i in match)
+    return tuple(dict.fromkeys(f))
 
 
 def _name_features(names):
@@ -287,6 +324,8 @@ def _name_features(names):
             f += ("name-separator-" + label,)
     if any("/" in n[len("release/"):] for n in rel):
         f += ("name-separator-slash",)
+    if any(a != b and b.startswith(a) and b[len(a)] in "._-/" and b[len(a) + 1].isdigit() for a in rel for b in rel):
+        f += ("name-is-prefix-of-another-with-numeric-continuation",)
     return f
 
 
